@@ -1,6 +1,9 @@
-(* C12 - Gamma-cat and gamma-k follow their definition.  Proofs in theories/Gamma/GammaKProofs.v. *)
-From Coq Require Import List Arith ZArith QArith Bool Permutation.
+(* C12 - Gamma-cat and gamma-k follow their definition.  Proofs in theories/Gamma/GammaKProofs.v.
+   The C12_src_* theorems at the end are re-proved on every run against genprops/GammaGen.v, the translation of GammaResults.gamma_cat / gamma_k
+   (value rule and job wiring) from the CURRENT continuum.py (harness/gen_gamma.py). *)
+From Coq Require Import String List Arith ZArith QArith Bool Permutation Lia.
 From PGA Require Import Gamma.GammaK Gamma.GammaKProofs Gamma.GammaKSlots.
+From PGAprops Require Import GammaGen.
 Import ListNotations.
 Local Open Scope Q_scope.
 
@@ -52,3 +55,74 @@ Example C12_example :
   has_real (contribs 1 1 None al) = true /\ gk_loop 1 1 None al == 12 # 17 /\ gk_loop 1 1 (Some 2%Z) al == 1 /\
   has_real (contribs 1 1 (Some 7%Z) al) = false /\ gk_loop 1 1 (Some 7%Z) al == 1.
 Proof. vm_compute. repeat split; reflexivity. Qed.
+
+(* ---------------------------------------------------------------------------------------------------------------------------------
+   Tie to the source: the bodies of GammaResults.gamma_k / gamma_cat ARE gamma_of / gamma_cat_of of the observed job's result and the chance
+   jobs' results, and both submit _compute_gamma_k_job on the best alignment and on every chance alignment, with the category (gamma-k) or None
+   (gamma-cat). *)
+Theorem C12_src_gamma_k obs chance : gamma_k_src chance obs == gamma_of obs chance.
+Proof. unfold gamma_k_src, gamma_of. cbv zeta. destruct (Qeq_bool obs 0); reflexivity. Qed.
+Theorem C12_src_gamma_cat obs chance : gamma_cat_src chance obs == gamma_cat_of obs chance.
+Proof. unfold gamma_cat_src, gamma_cat_of. cbv zeta. destruct (Qeq_bool obs 0); [reflexivity|]. destruct (Qeq_bool (qmean chance) 0); reflexivity. Qed.
+Theorem C12_src_jobs :
+  gamma_cat_jobs = [("observed_disorder_job", "p.submit(_compute_gamma_k_job, *(self.dissimilarity, self.best_alignment, None))");
+                    ("chance_disorders_jobs", "[p.submit(_compute_gamma_k_job, *(self.dissimilarity, alignment, None)) for alignment in self.chance_alignments]")]%string /\
+  gamma_k_jobs = [("observed_disorder_job", "p.submit(_compute_gamma_k_job, *(self.dissimilarity, self.best_alignment, category))");
+                  ("chance_disorders_jobs", "[p.submit(_compute_gamma_k_job, *(self.dissimilarity, alignment, category)) for alignment in self.chance_alignments]")]%string.
+Proof. split; reflexivity. Qed.
+
+(* the accumulator loop of Alignment.gamma_k_disorder, translated statement by statement (gk_body_src: one turn of the pair loop as a state
+   transformer; weight_base_src; gk_final_src), IS the model's loop: per turn, per unitary alignment, and assembled over a whole alignment.
+   A unit is None (the empty unit) or Some of its annotation; the model's slots are lifted accordingly (units are labelled here). *)
+Definition lift_slot (s : option Z) : option (option Z) := match s with None => None | Some c => Some (Some c) end.
+
+Theorem C12_src_body alpha de cat wb s1 s2 pv st :
+  gk_body_src alpha (snd pv) cat de (fst pv) wb (lift_slot s1) (lift_slot s2) st = gk_step st (contrib_of alpha de cat wb (s1, s2) pv).
+Proof.
+  destruct st as [[[td tw] nc] nl]. unfold gk_body_src, contrib_of, gk_step, lift_slot, is_cat, cat_eqb_opt.
+  destruct cat as [k|]; destruct s1 as [c1|]; destruct s2 as [c2|]; cbn;
+    try destruct (c1 =? k)%Z; try destruct (c2 =? k)%Z; reflexivity.
+Qed.
+
+Theorem C12_src_weight_base u : weight_base_src (inject_Z (Z.of_nat (nb_units u))) = weight_base u.
+Proof.
+  unfold weight_base_src, weight_base. set (n := nb_units u).
+  destruct (Nat.ltb_spec n 2) as [H|H].
+  - assert (E : Qle_bool 2 (inject_Z (Z.of_nat n)) = false).
+    { destruct (Qle_bool 2 (inject_Z (Z.of_nat n))) eqn:E; [|reflexivity]. apply Qle_bool_iff in E.
+      change 2 with (inject_Z 2) in E. rewrite <- Zle_Qle in E. lia. }
+    rewrite E. reflexivity.
+  - assert (E : Qle_bool 2 (inject_Z (Z.of_nat n)) = true).
+    { apply Qle_bool_iff. change 2 with (inject_Z 2). rewrite <- Zle_Qle. lia. }
+    rewrite E. reflexivity.
+Qed.
+
+(* the whole loop, assembled from the translated pieces in the shape the source has *)
+Definition items (al : list ua) : list (Q * (option Z * option Z) * (Q * Q)) :=
+  flat_map (fun u => map (fun x => (weight_base_src (inject_Z (Z.of_nat (nb_units u))), fst x, snd x)) (combine (pairs_of (slots u)) (pvals u))) al.
+Definition gk_loop_src (alpha de : Q) (cat : option Z) (al : list ua) : Q :=
+  gk_final_src (fold_left (fun st x => let '(wb, sp, pv) := x in
+                                       gk_body_src alpha (snd pv) cat de (fst pv) wb (lift_slot (fst sp)) (lift_slot (snd sp)) st)
+                          (items al) (0, 0, true, true)).
+
+Lemma fold_left_map_ext {A B S} (f : S -> B -> S) (g : S -> A -> S) (h : A -> B) l s :
+  (forall st x, g st x = f st (h x)) -> fold_left g l s = fold_left f (map h l) s.
+Proof. intros H. revert s. induction l as [|x l IH]; intros s; [reflexivity|]. cbn. rewrite H. apply IH. Qed.
+
+Lemma contribs_items alpha de cat al :
+  contribs alpha de cat al = map (fun x => let '(wb, sp, pv) := x in contrib_of alpha de cat wb sp pv) (items al).
+Proof.
+  unfold contribs, items. induction al as [|u al IH]; [reflexivity|]. cbn [flat_map]. rewrite map_app, <- IH. f_equal.
+  rewrite map_map. apply map_ext. intros [sp pv]. cbn. rewrite C12_src_weight_base. reflexivity.
+Qed.
+
+Theorem C12_src_loop alpha de cat al : gk_loop_src alpha de cat al = gk_loop alpha de cat al.
+Proof.
+  unfold gk_loop_src, gk_loop. rewrite contribs_items.
+  rewrite (fold_left_map_ext gk_step _ (fun x => let '(wb, sp, pv) := x in contrib_of alpha de cat wb sp pv)).
+  - unfold gk_final_src. destruct (fold_left _ _ _) as [[[td tw] nc] nl]. reflexivity.
+  - intros st [[wb [s1 s2]] pv]. cbn [fst snd]. apply C12_src_body.
+Qed.
+
+Theorem C12_src_loops : gk_loops_src = ["for (i, (_, unit1)) in enumerate(unitary_alignment.n_tuple)"; "for (_, unit2) in unitary_alignment.n_tuple[i + 1:]"]%string.
+Proof. reflexivity. Qed.
